@@ -938,6 +938,14 @@ def pretty_print_merge_decision(base, decision, config=DefaultConfig):
         if diff:
             config.out.write("%s%s%s:%s\n" % (
                 config.INFO.replace("##", "---"), dkey, note, config.RESET))
+            if dkey == "similar_insert":
+                # This holds a patch from the locally inserted item to the
+                # remotely inserted one, it is not relative to base (and its
+                # key is the item's position in the original insertion)
+                lvalue = decision.local_diff[0].valuelist[0]
+                for e in diff:
+                    pretty_print_diff(lvalue, e.diff, path, config)
+                continue
             value = base
             for i, k in enumerate(decision.common_path):
                 if isinstance(value, str):
